@@ -106,6 +106,8 @@ func (f *FieldR) goType() reflect.Type {
 		return reflect.TypeOf([]int64(nil))
 	case "strs":
 		return reflect.TypeOf([]string(nil))
+	case "anys":
+		return reflect.TypeOf([]any(nil))
 	case "mapsi":
 		return reflect.TypeOf(map[string]int64(nil))
 	case "pint":
@@ -248,6 +250,14 @@ func (f *FieldR) fill(rv reflect.Value) {
 			copy(s, v.Strs)
 			rv.Set(reflect.ValueOf(s))
 		}
+	case "anys": // a list of anything, null elements included
+		if !v.Nil {
+			s := []any{nil}
+			for _, x := range v.Strs {
+				s = append(s, x, nil)
+			}
+			rv.Set(reflect.ValueOf(s))
+		}
 	case "mapsi":
 		if !v.Nil {
 			m := map[string]int64{}
@@ -298,6 +308,8 @@ func (f *FieldR) fill(rv reflect.Value) {
 				}
 			}
 			rv.Set(reflect.ValueOf(m))
+		case "mixed": // a list with null elements
+			rv.Set(reflect.ValueOf([]any{nil, v.I, v.S, []any{nil, true}, nil}))
 		case "nilptr": // a typed nil pointer in the interface: not == nil, but nil all the same
 			rv.Set(reflect.ValueOf((*Inner)(nil)))
 		case "ptr":
@@ -416,7 +428,7 @@ func keyNorm(name string) string {
 
 var scalarKinds = []string{"bool", "int", "int8", "int16", "int32", "int64", "uint", "uint8", "uint16", "uint32", "uint64", "float32", "float64", "string", "string", "int64",
 	"nuint16", "nint32", "nbool", "nfloat64", "nstring"} // n...: named types with that underlying kind
-var otherKinds = []string{"bytes", "ints", "strs", "mapsi", "pint", "pstr", "ppint", "any", "any", "arr3", "mapsm", "nstrs", "nports", "nmapli"}
+var otherKinds = []string{"bytes", "ints", "strs", "mapsi", "pint", "pstr", "ppint", "any", "any", "arr3", "mapsm", "nstrs", "nports", "nmapli", "anys"}
 var structKinds = []string{"struct", "pstruct", "structs", "pstructs", "mapst"}
 var tagForms = []string{"", "", "", `json:"%s"`, `json:"%s,omitempty"`, `json:",omitempty"`, `json:"-"`, `json:"%s,string"`, `json:"-,"`}
 var tagNames = []string{"a", "b", "name", "x_y", "Upper", "id", "with space", "é"}
@@ -537,7 +549,7 @@ func drawValue(t *rapid.T, f *FieldR, depth int) *ValueR {
 				v.Ints = append(v.Ints, rapid.SampledFrom(valueInts).Draw(t, "ei"))
 			}
 		}
-	case "strs", "nstrs":
+	case "strs", "nstrs", "anys":
 		v.Nil = rapid.IntRange(0, 3).Draw(t, "nil") == 0
 		if !zero {
 			n := rapid.IntRange(1, 3).Draw(t, "n")
@@ -560,7 +572,7 @@ func drawValue(t *rapid.T, f *FieldR, depth int) *ValueR {
 			v.I = rapid.SampledFrom(valueInts).Draw(t, "pi")
 		}
 	case "any":
-		v.Any = rapid.SampledFrom([]string{"nil", "bool", "int", "float", "string", "ints", "map", "nilptr", "ptr"}).Draw(t, "anykind")
+		v.Any = rapid.SampledFrom([]string{"nil", "bool", "int", "float", "string", "ints", "map", "nilptr", "ptr", "mixed"}).Draw(t, "anykind")
 		v.B = true
 		v.I = rapid.SampledFrom(valueInts).Draw(t, "ai")
 		v.F = 2.5
